@@ -298,10 +298,10 @@ Section ItemsWf.
       + exact (IH _ _ H).
       + exact (items_go_wf _ (x :: y :: l) IH [] o eq_refl H).
     - inversion H. reflexivity.
-    - destruct l as [|s l]; inversion H; [reflexivity|]. cbn [owf]. rewrite wf_FArr, forallb_forall.
-      intros x Hx. destruct Hx as [<-|Hx]; [cbn [wf_fjv]; apply escape_quote_raw_ok|].
-      apply in_map_iff in Hx. destruct Hx as [s0 [<- _]]. cbn [wf_fjv]. apply escape_quote_raw_ok.
-    - inversion H. reflexivity.
+    - destruct p; (destruct l as [|s l]; inversion H; [reflexivity|]; cbn [owf]; rewrite wf_FArr, forallb_forall;
+      intros x Hx; destruct Hx as [<-|Hx]; [cbn [wf_fjv]; apply escape_quote_raw_ok|];
+      apply in_map_iff in Hx; destruct Hx as [s0 [<- _]]; cbn [wf_fjv]; apply escape_quote_raw_ok).
+    - destruct p; inversion H; reflexivity.
   Qed.
 
   Corollary tree_of_wf i v : tree_of jw_tables i = Some (Some v) -> wf_fjv v = true.
